@@ -146,7 +146,7 @@ def run_case(case, ctx):
         return {'violations': out, 'keys': keys}
     # ---- resolver queries: only for the named host, with the family the option asks for
     for (qh, qp, qf) in rec['resolver']:
-        if qh != host:
+        if qh != host and qh not in addrs:
             out.append(viol('C18 resolver asked for a host that was not named (%s, -p %s)' % (src, 'given' if case['popt'] is not None else 'absent'), 'asked %r\n%s' % (qh, ctx_txt)))
             break
     want_fams = {4: {2}, 6: {10}}
